@@ -1,0 +1,41 @@
+//go:build verif
+
+// Contracts for /verif (build tag "verif"): //@ comment blocks and pure ghost functions only.
+package wazevoapi
+
+import "github.com/tetratelabs/wazero/internal/wasm"
+
+var _ *wasm.Module
+
+// after: region [b, ...) starts at or after the end of region [pb, pb+ps) - when both are present.
+func after(b, pb, ps Offset) bool { return b < 0 || pb < 0 || pb+ps <= b }
+
+func nFuncs(m *wasm.Module) Offset   { return Offset(m.ImportFunctionCount) * FunctionInstanceSize }
+func nGlobals(m *wasm.Module) Offset { return Offset(int(m.ImportGlobalCount)+len(m.GlobalSection)) * 16 }
+func nTables(m *wasm.Module) Offset  { return Offset(len(m.TableSection)+int(m.ImportTableCount)) * 8 }
+
+// layoutOK: the module context of an instance is a sequence of non-overlapping regions, in this order:
+// module instance pointer, local memory, imported memory, imported functions, globals, type ids,
+// tables, listener trampolines, data instances, element instances - all inside TotalSize.
+func layoutOK(m *wasm.Module, r ModuleContextOffsetData) bool {
+	lm, im, f, g, t, tb := r.LocalMemoryBegin, r.ImportedMemoryBegin, r.ImportedFunctionsBegin, r.GlobalsBegin, r.TypeIDs1stElement, r.TablesBegin
+	bl, al, d, el := r.BeforeListenerTrampolines1stElement, r.AfterListenerTrampolines1stElement, r.DataInstances1stElement, r.ElementInstances1stElement
+	return r.ModuleInstanceOffset == 0 &&
+		after(lm, 0, 8) &&
+		after(im, 0, 8) && after(im, lm, 16) &&
+		after(f, 0, 8) && after(f, lm, 16) && after(f, im, 16) &&
+		after(g, 0, 8) && after(g, lm, 16) && after(g, im, 16) && after(g, f, nFuncs(m)) && (g < 0 || g&15 == 0) &&
+		after(t, 0, 8) && after(t, lm, 16) && after(t, im, 16) && after(t, f, nFuncs(m)) && after(t, g, nGlobals(m)) &&
+		(t < 0) == (tb < 0) && (t < 0 || tb == t+8) &&
+		after(bl, 0, 8) && after(bl, lm, 16) && after(bl, im, 16) && after(bl, f, nFuncs(m)) && after(bl, g, nGlobals(m)) && after(bl, tb, nTables(m)) &&
+		(bl < 0) == (al < 0) && (bl < 0 || al == bl+8) &&
+		d >= 8 && after(d, lm, 16) && after(d, im, 16) && after(d, f, nFuncs(m)) && after(d, g, nGlobals(m)) && after(d, tb, nTables(m)) && after(d, al, 8) &&
+		el == d+8 && int(el)+8 <= r.TotalSize && r.TotalSize&15 == 0
+}
+
+//@ prop C11 C12
+//@ func NewModuleContextOffsetData(m *wasm.Module, withListener bool) ModuleContextOffsetData
+//@   requires m.ImportFunctionCount < 1<<20 && m.ImportGlobalCount < 1<<20 && len(m.GlobalSection) < 1<<20 && len(m.TableSection) < 1<<20 && m.ImportTableCount < 1<<20
+//@   ensures[regions-disjoint-and-inside] layoutOK(m, r0)
+//@   ensures[present-exactly-when-needed] (r0.LocalMemoryBegin >= 0) == (m.MemorySection != nil) && (r0.ImportedMemoryBegin >= 0) == (m.ImportMemoryCount > 0) && (r0.ImportedFunctionsBegin >= 0) == (m.ImportFunctionCount > 0) && (r0.BeforeListenerTrampolines1stElement >= 0) == withListener
+//@   modifies nothing
